@@ -141,6 +141,10 @@ def h_default(d: Decl, props, valid=True):
     R = 'ref_' + d.id
     dv = d.default_ref if d.default_ref is not None else d.default
     clause = 'default() == try_new(default expr).unwrap(); panics when the constructor rejects the default expression'
+    if not valid and d.note == 'invalid-default-second-instantiation':
+        body = ('        let ok = <%s::<i32> as Default>::default();\n        assert!(ok.into_inner() == 5);\n'
+                '        let _v = <%s::<u8> as Default>::default();   // 7 is rejected by the predicate: must panic\n' % (d.name, d.name))
+        return Harness(d, 'Default::default(valid instantiation first, then an invalid one => panic)', props, body, should_panic=True, clause=clause)
     if not valid:
         # single-path harness (literal default): passes iff default() panics; nothing else can panic here
         body = '        let _v = <%s as Default>::default();\n' % S
@@ -436,6 +440,8 @@ def h_cmp(d: Decl, props):
         body += '        assert!(a.partial_cmp(&a) == ia.partial_cmp(&ia), "partial_cmp of a value with itself agrees with the inner value");\n'
         body += ('        assert!(a.partial_cmp(&b) == ia.partial_cmp(&ib), "partial_cmp agrees with the inner values");\n'
                  '        assert!((a < b) == (ia < ib) && (a <= b) == (ia <= ib) && (a > b) == (ia > ib) && (a >= b) == (ia >= ib), "comparison operators agree");\n')
+    if 'Ord' in d.derives:
+        body += '        assert!(a.cmp(&a) == ::core::cmp::Ordering::Equal, "cmp of a value with itself is Equal");\n'
     if 'Ord' in d.derives and d.family != 'float':
         body += '        assert!(a.cmp(&b) == ia.cmp(&ib), "cmp agrees with the inner values");\n'
     if 'Ord' in d.derives and d.family == 'float':
@@ -810,6 +816,24 @@ def serde_decls(tier='quick'):
     return out
 
 
+def serialize_only_decls(tier='quick'):
+    """`derive(Serialize)` WITHOUT `Deserialize`: the Serialize impl must not depend on the other derive"""
+    out = []
+    so = ['Debug', 'Serialize']
+    for t in (['i32', 'u64', 'f64'] if tier == 'quick' else ['i32', 'u8', 'i64', 'u64', 'f32', 'f64']):
+        fl = t in FLOAT_TYPES
+        fam = 'float' if fl else 'int'
+        bu, n2 = aux.sym_bound('hi', t)
+        s, n5 = aux.custom('san', t)
+        out.append(mk('sdo_%s_nov' % t, fam, t, derives=so))
+        out.append(mk('sdo_%s_san_val' % t, fam, t, sanitizers=[Sanitizer('with', s)], validators=[Validator('less', bu)], aux=[n2, n5], derives=so))
+    out += generic_decls('sdo', so, with_validation=False)
+    for d in out:
+        d.verus = False
+        d.kani = True
+    return out
+
+
 def serde_string_decls():
     out = [mk('sd_str_tr_max', 'string', 'String', sanitizers=[Sanitizer('trim')], validators=[Validator('len_char_max', aux.lit_bound(2))],
               derives=['Debug', 'Serialize', 'Deserialize']),
@@ -842,6 +866,27 @@ def int_valid_range_code(d: Decl):
             out += '        { let b: %s = %s; vmax = vmax.map(|a| if a < b { a } else { b }); }\n' % (t, b)
     out += '        kani::assume(vmin.is_some() && vmax.is_some() && vmin.unwrap() <= vmax.unwrap());   // the valid set is non-empty\n'
     return out
+
+
+def h_arbitrary_take_rest(d: Decl, props):
+    """`Arbitrary::arbitrary_take_rest` (provided method; a generator may override it): same guarantee"""
+    S = concrete_self(d)
+    t = d.inner
+    sz = (INT_BITS_OF[t] // 8) if d.family == 'int' else (4 if t == 'f32' else 8)
+    n = sz + 1 if d.family == 'int' else 2 * sz + 1
+    pre = sym_setup(d)
+    if d.family == 'int':
+        pre += int_valid_range_code(d) if not d.sanitizers else ''
+    elif any(x.startswith('sym_') for x in d.aux):
+        pre += '        kani::assume(sym_lo_%s().is_finite() && sym_hi_%s().is_finite() && { let w: %s = kani::any(); !w.is_nan() && ref_%s::valid(&w) });\n' % (t, t, t, d.id)
+    body = (pre +
+            '        let bytes: [u8; %d] = kani::any();\n        let len: usize = kani::any();\n        kani::assume(len <= %d);\n' % (n, n) +
+            '        let u = arbitrary::Unstructured::new(&bytes[..len]);\n'
+            '        match <%s as arbitrary::Arbitrary>::arbitrary_take_rest(u) {\n' % S +
+            '            Ok(v) => { let i = v.into_inner(); assert!(ref_%s::valid(&i), "arbitrary_take_rest() yields only values the validators accept"); }\n' % d.id +
+            '            Err(_) => {}\n        }\n')
+    return Harness(d, 'Arbitrary::arbitrary_take_rest', props, body, attrs='#[kani::unwind(%d)]\n    ' % (n + 3),
+                   clause='forall byte strings: arbitrary_take_rest(u) is Err or Ok(v) with v valid; no panic')
 
 
 def h_arbitrary_int(d: Decl, props):
@@ -1384,6 +1429,14 @@ def harnesses_for(prop, tier, seed):
                 if d.inner in ('i128', 'u128') and not d.has_validation:
                     hs.append(h_roundtrip_concrete(d, [prop], '(1 as %s) << 70' % d.inner, '2^70'))
                     hs.append(h_roundtrip_concrete(d, [prop], '%s::MAX' % d.inner, 'MAX'))
+        if prop == 'C10':
+            so = serialize_only_decls(tier)
+            for d in so:
+                hs.append(h_serialize(d, [prop]))
+            sos = mk('sdo_str_tr', 'string', 'String', sanitizers=[Sanitizer('trim')], derives=['Debug', 'Serialize'])
+            sos.verus = False
+            hs.append(h_serialize(sos, [prop], concrete=('" ab "', 'ab'), bounded='bounded: concrete string only'))
+            decls = decls + so + [sos]
         B = 'bounded: concrete string documents only (symbolic strings do not finish in CBMC)'
         for d in sdecls:
             if prop == 'C04':
@@ -1408,11 +1461,27 @@ def harnesses_for(prop, tier, seed):
             for e in ('TryFrom', 'FromStr', 'Deserialize', 'Arbitrary'):
                 if e in d.derives:
                     hs.append(h_valid_via(d, [prop], e))
+            if 'Arbitrary' in d.derives and (tier == 'thorough' or d.inner in ('i32', 'u8', 'f32')):
+                h = h_arbitrary_take_rest(d, [prop])
+                h.what = 'guards run: Arbitrary::arbitrary_take_rest'
+                h.key = '%s::%s' % (d.id, h.what)
+                hs.append(h)
             if 'Deserialize' in d.derives and (tier == 'thorough' or d.inner in ('i32', 'f64')):
                 h = h_deserialize_in_place(d, [prop])
                 h.what = 'guards run: deserialize_in_place on an existing value'
                 h.key = '%s::%s' % (d.id, h.what)
                 hs.append(h)
+        # String newtypes: deserialize_in_place on an existing value (concrete documents in Kani, native runs)
+        sdecls = serde_string_decls()
+        B = 'bounded: concrete string documents only (symbolic strings do not finish in CBMC)'
+        for d in sdecls:
+            for lit, old_, ok, tag in [('" b "', '"a"', 'true', 'valid document'), ('"abcde"', '"a"', 'true', 'rejected document (too long)')]:
+                h = h_deserialize_in_place(d, [prop], bounded=B, concrete=(lit, old_, ok, tag))
+                h.what = 'guards run: deserialize_in_place on an existing value (%s)' % tag
+                h.key = '%s::%s' % (d.id, h.what)
+                hs.append(h)
+        NATIVE_STRING_SERDE[prop] = sdecls
+        decls = decls + sdecls
         dd = [d for d in default_decls(tier) if not d.note.startswith('invalid-default') and d.has_validation and d.family != 'string']
         for d in dd:
             body = sym_setup(d) + '        { let dv: %s = %s; kani::assume(ref_%s::try_new(dv).is_ok()); }\n' % (concrete_inner(d), d.default_ref, d.id) + '        let i = <%s as Default>::default().into_inner();\n        assert!(ref_%s::valid(&i), "Default::default() yields a valid value (or panics)");\n' % (concrete_self(d), d.id)
@@ -1429,6 +1498,8 @@ def harnesses_for(prop, tier, seed):
         df = arbitrary_float_decls(tier)
         for d in di:
             hs.append(h_arbitrary_int(d, [prop]))
+            if d.inner in ('u8', 'i16') and not d.sanitizers and (tier == 'thorough' or 'sym' in d.id):
+                hs.append(h_arbitrary_take_rest(d, [prop]))
         for d in df:
             t = d.inner
             if 'sym' in d.id:
@@ -1612,6 +1683,16 @@ def default_decls(tier='quick'):
             aux=['Meters'], derives=['Debug', 'Default'], default='Meters(0)', default_ref='Meters(0)')
     da.note = 'invalid-default'
     out.append(da)
+    # generic newtype whose default depends on T: every instantiation is guarded on its own
+    # (valid for T = i32, must panic for T = u8 — also AFTER the i32 instantiation has been used)
+    pg = Custom(name='pred_gen', src='pred_gen', spec='')
+    dg = mk('def_gen_dflt', 'any', 'T', validators=[Validator('predicate', fn=pg)], aux=['Sat', 'MyErr'], derives=['Debug', 'Default'],
+            generics='<T: Dflt>', generic_args='<T>', default='T::dflt()', default_ref='<i32 as Dflt>::dflt()')
+    out.append(dg)
+    dg2 = mk('def_gen_dflt_second_instantiation', 'any', 'T', validators=[Validator('predicate', fn=pg)], aux=['Sat', 'MyErr'], derives=['Debug', 'Default'],
+             generics='<T: Dflt>', generic_args='<T>', default='T::dflt()', default_ref='<i32 as Dflt>::dflt()')
+    dg2.note = 'invalid-default-second-instantiation'
+    out.append(dg2)
     # `derive(Default)` without `default = ..` must be rejected; should it ever be accepted, the harness
     # requires default() == new(<Inner as Default>::default())
     sm = Custom(name='san_m2', src='san_m2', spec='')
@@ -1684,6 +1765,12 @@ def arbitrary_string_decls(tier='quick'):
         out.append(mk('arbs_%s_nov' % sname, 'string', 'String', sanitizers=sans, derives=der))
         for vname, vals, names in vsets:
             out.append(mk('arbs_%s_%s' % (sname, vname), 'string', 'String', sanitizers=sans, validators=vals, aux=names, derives=der))
+    # literal bounds (the generator specialises on what it knows at expansion time)
+    L_ = aux.lit_bound
+    for sname, sans in [('nos', []), ('tr', [T]), ('tr_lo', [T, L])]:
+        for vname, vals in [('min3_lit', [Validator('len_char_min', L_(3))]), ('min2_max4_lit', [Validator('len_char_min', L_(2)), Validator('len_char_max', L_(4))]),
+                            ('ne_max3_lit', [ne, Validator('len_char_max', L_(3))]), ('min0_max2_lit', [Validator('len_char_min', L_(0)), Validator('len_char_max', L_(2))])]:
+            out.append(mk('arbs_%s_%s' % (sname, vname), 'string', 'String', sanitizers=sans, validators=vals, derives=der))
     for d in out:
         d.verus = False
         d.kani = True
